@@ -94,6 +94,12 @@ namespace cdsverif {
     // implemented by each harness TU
     Schema const& harness_schema();
     Verdict run_case( Case const& c );
+    // optional: enumeration / special campaigns of a harness ("--extra <args...>").
+    // Must account every evaluated input in `stats` (engine, evaluations, nt_hashes, samples,
+    // exhaustive_domains), write <prefix>.failing.case (a normal replayable Case text) for
+    // a failure and return 1; return 0 when everything held.
+    struct RunStats;
+    int harness_extra( int argc, char** argv, RunStats& stats ) __attribute__(( weak ));
 } // namespace cdsverif
 
 #endif
